@@ -51,7 +51,7 @@ def wl_line(mode, ops, am_cap=None):
     return "%s %s" % (mode, ";".join(out))
 
 
-def mpi_run(ctx, exe, np_, params, lines, tag, floor=20):
+def mpi_run(ctx, exe, np_, params, lines, tag, floor=30):
     """One mpiexec run over several workloads.  Returns the list of merged executions (one per workload)."""
     wf = os.path.join(ctx.scratch, "wl-%s.txt" % tag)
     with open(wf, "w") as f:
